@@ -139,6 +139,14 @@ pub fn check(case: &Case, obs: &mut Obs) -> Verdict {
 }
 
 fn extra(cfg: &RunCfg, w: &mut Worker) {
+    corpus_subrun(cfg, w, |i, paras, width, v| {
+        grid_variant(v, i, width, false).map(|mut o| {
+            o.ii.clear();
+            o.si.clear();
+            let g = [("", " ", ""), ("| ", " | ", " |"), ("", "  ", ""), ("> ", "✨ ", "")][v];
+            Case::new("columns").text(paras[i].clone()).text(g.0).text(g.1).text(g.2).opt(o).num(1 + (i + v) % 4)
+        })
+    });
     // grid: columns 1..=6 x total width 0..=60 x a few gap triples x break_words, fixed texts
     let texts = ["", "a", "\u{ff28}", "The quick brown fox jumps over the lazy dog", "你好 世界 wide ｗｉｄｅ text", "supercalifragilistic x"];
     let gaps = [("", "", ""), ("| ", " | ", " |"), ("é", "✨ ", "--")];
